@@ -1491,7 +1491,7 @@ def mpi_constructors_normalise(ctx, P):
                 ctx.ok('%s:S05-22:mpi-normalised:%s' % (P, p), 'R-who', 'Mpi::from_raw is the documented raw constructor (its callers: S05-11)', function=p)
                 continue
             og = b.operand_origins(st['r']['o'][0]) if st['r']['o'] else set()
-            ok = has_origin(og, r'call:.*(strip_leading_zeros|Mpi::from_slice|leading_zeros_offset|Buf::advance)$')
+            ok = has_origin(og, r'call:.*(strip_leading_zeros|Mpi::from_slice|leading_zeros_offset)$')      # (a plain `advance(1)` strips one octet only)
             ctx.check('%s:S05-22:mpi-normalised:%s' % (P, p), 'R-who', '%s builds an Mpi from octets without leading zeros' % p.split(' as ')[0].lstrip('<').split('::')[-1] if False else '%s builds an Mpi from stripped octets' % p,
                       ok, function=p, site=site(b, i),
                       missing=None if ok else 'the octets come from %s without passing strip_leading_zeros: a value of zero is held as [0] and written as `00 00 00`' % sorted(x[5:] for x in og if x.startswith('call:'))[:2])
